@@ -3,6 +3,8 @@ import itertools
 
 from core import Property, Stream, enc, dec
 import pystr
+import cli
+import os
 
 START = "REUSE-IgnoreStart"
 END = "REUSE-IgnoreEnd"
@@ -223,6 +225,164 @@ class ExtractStream(Stream):
         return {"text": render(case["t"], case["c"])[0]}
 
 
+class FileStream(Stream):
+    """The same property observed where `reuse lint` observes it: through reuse_info_of_file on a real file, i.e. behind
+    the 4 KiB window / whole-file (snippet) rule.  "Text between a start marker and the next end marker (or the end of the
+    scanned text when there is none) never contributes": the scanned text is the first 4096 bytes, or the whole file when it
+    contains an SPDX snippet marker."""
+    name = "file"
+    rule = ("files of 1-20 KiB made of token runs (markers, the three tag kinds, text) separated by filler blocks of 0.5-5 KiB, with "
+            "and without an SPDX-SnippetBegin line (placed before, inside or after the blocks), so that ignore blocks straddle the "
+            "4096-byte window and every later 4 KiB boundary: reuse_info_of_file vs the scanner applied to the scanned text; "
+            "non-trivial = a tag hidden by a block or cut off by the window")
+
+    def cases(self, tier, rng):
+        for _ in range(3000 if tier == "thorough" else 250):
+            segs = []
+            for _ in range(rng.randint(2, 6)):
+                segs.append([rng.choice([0, 0, 1, 2, 2, 3, 4, 5, 6]) for _ in range(rng.randint(1, 5))])
+                segs.append(rng.choice([0, 300, 900, 2500, 3900, 4096, 5000]) + rng.randint(0, 200))
+            case = {"segs": segs, "snip": rng.choice([None, None, 0, 1, 2, 3, 4, 5]), "c": rng.randint(0, 1)}
+            if case["snip"] is not None and rng.random() < 0.5:
+                # the snippet marker itself straddles a multiple of 4096 bytes (it starts j bytes before it)
+                case["straddle"] = [rng.randint(1, 4), rng.randint(1, 16)]
+            yield case
+
+    def build(self, case):
+        """-> (text, planted [(kind, value, start, end)])"""
+        st, en = _markers()
+        pre = "# " if case["c"] else ""
+        parts, planted, pos, k = [], [], 0, 0
+
+        def put(x):
+            nonlocal pos
+            parts.append(x)
+            pos += len(x)
+        nseg = 0
+        for seg in case["segs"]:
+            if isinstance(seg, int):
+                if case["snip"] == nseg:
+                    put(pre + "SPDX-SnippetBegin\n")
+                nseg += 1
+                n = seg
+                while n > 0:
+                    line = "filler line %04d\n" % (n % 9973)
+                    put(line[-n:] if n < len(line) else line)
+                    n -= len(line)
+                continue
+            for t in seg:
+                if t == Tok.S:
+                    put(st)
+                elif t == Tok.E:
+                    put(en)
+                elif t in (Tok.L, Tok.C, Tok.N):
+                    k += 1
+                    if t == Tok.L:
+                        v = LICS[k % len(LICS)]
+                        line, rec = pre + "SPDX-License-Identifier: " + v + "\n", ("lic", v)
+                    elif t == Tok.C:
+                        v = "2020 Holder%d" % k
+                        line, rec = pre + "SPDX-FileCopyrightText: " + v + "\n", ("cpr", "SPDX-FileCopyrightText: " + v)
+                    else:
+                        v = "Contrib%d" % k
+                        line, rec = pre + "SPDX-FileContributor: " + v + "\n", ("con", v)
+                    planted.append(rec + (pos, pos + len(line)))
+                    put(line)
+                elif t == Tok.X:
+                    put("x")
+                elif t == Tok.NL:
+                    put("\n")
+                else:
+                    put(" ")
+        text = "".join(parts)
+        if case.get("straddle") and "SPDX-SnippetBegin" in text:
+            kk, j = case["straddle"]
+            i = text.index("SPDX-SnippetBegin")
+            ls = i - len(pre)                       # start of the marker's line
+            need = 4096 * kk - j - i
+            while need < 0:
+                need += 4096
+            if need > 0:
+                fill = "." * (need - 1) + "\n"
+                text = text[:ls] + fill + text[ls:]
+                planted = [(kd, v, a + need, b + need) if a >= ls else (kd, v, a, b) for kd, v, a, b in planted]
+        # the window must not cut a tag line or a marker in two (what a truncated tag means is C02's business)
+        for _ in range(40):
+            cut = 4096
+            bad = any(a < cut < b for _, _, a, b in planted)
+            for m in (st, en):
+                i = text.find(m)
+                while i >= 0:
+                    bad = bad or (i < cut < i + len(m))
+                    i = text.find(m, i + 1)
+            if not bad:
+                break
+            text = "#" + "." * 4094 + "\n" + text      # a whole window of filler: alignments relative to 4096 are kept
+            planted = [(kd, v, a + 4096, b + 4096) for kd, v, a, b in planted]
+        return text, planted
+
+    def scanned(self, text):
+        return text if "SPDX-SnippetBegin" in text else text.encode()[:4096].decode()
+
+    def impl(self, case):
+        from reuse.extract import reuse_info_of_file
+        import logging
+        text, _ = self.build(case)
+        with cli.scratch("rv-c12-") as root:
+            path = os.path.join(root, "f.py")
+            with open(path, "w", encoding="utf-8", newline="") as fp:
+                fp.write(text)
+            logging.disable(logging.CRITICAL)
+            try:
+                info = reuse_info_of_file(path, path, root)
+            finally:
+                logging.disable(logging.NOTSET)
+        return "L=%s|C=%s|N=%s" % (";".join(sorted(str(e) for e in info.spdx_expressions)), ";".join(sorted(info.copyright_lines)),
+                                   ";".join(sorted(info.contributor_lines)))
+
+    def expected(self, case):
+        st, en = _markers()
+        text, planted = self.build(case)
+        sc = self.scanned(text)
+        mask = outside_mask(sc, st, en)
+        got = {"lic": set(), "cpr": set(), "con": set()}
+        for kind, v, a, b in planted:
+            if b <= len(sc) and mask[a]:
+                got[kind].add(v)
+        if not got["lic"] and not got["cpr"]:
+            got["con"] = set()      # reuse_info_of_file reports nothing unless there is copyright or licensing information
+        return "L=%s|C=%s|N=%s" % tuple(";".join(sorted(got[k])) for k in ("lic", "cpr", "con"))
+
+    def model_lines(self, case):
+        return ["extract\t" + enc(self.scanned(self.build(case)[0]))]
+
+    def model_out(self, case, outs):
+        from core import dec_list
+        parts = dict(p.split("=", 1) for p in outs[0].split("|"))
+        lic, cpr, con = (sorted(dec_list(parts[k])) for k in "LCN")
+        if not lic and not cpr:
+            con = []
+        return "L=%s|C=%s|N=%s" % (";".join(lic), ";".join(cpr), ";".join(con))
+
+    def oracle(self, case, impl_out):
+        want = self.expected(case)
+        if impl_out != want:
+            return "file-extract-differs: got %s, tags outside blocks in the scanned text are %s" % (impl_out, want)
+        return None
+
+    def nontrivial(self, case, impl_out):
+        st, en = _markers()
+        text, planted = self.build(case)
+        sc = self.scanned(text)
+        mask = outside_mask(sc, st, en)
+        hidden = tuple((k, v) for k, v, a, b in planted if b > len(sc) or not mask[a])
+        return (impl_out, hidden, len(text) > 4096, "SPDX-SnippetBegin" in text) if hidden else None
+
+    def show(self, case):
+        text, planted = self.build(case)
+        return {"bytes": len(text), "snippet_marker": "SPDX-SnippetBegin" in text, "text_head": text[:300], "segments": case["segs"]}
+
+
 def table_roundtrip():
     from core import run_driver
     st, en = _markers()
@@ -233,7 +393,7 @@ def table_roundtrip():
 
 PROPERTY = Property(
     pid="C12",
-    streams=[FilterStream(), ExtractStream()] + pystr.STREAMS,
+    streams=[FilterStream(), ExtractStream(), FileStream()] + pystr.STREAMS,
     assumptions=[
         "CPython str.index/in/slicing are modelled by Py.findSub/take/drop (validated by the correspondence; the shared pystr streams "
         "compare the Python string mirrors of Py/Str.lean with CPython over all of Unicode and on enumerated strings)",
